@@ -151,7 +151,7 @@ fn run_config(e: &Expression, n_threads: usize, rpt: usize, case: &str, seed: u6
                     rep.count("free_runs");
                 }
             }
-            if rep.samples.len() < 5 && ex.distinct.len() > 3 {
+            if rep.samples.is_empty() || (rep.samples.len() < 5 && ex.distinct.len() > 3) {
                 rep.sample(J::obj(vec![
                     ("expression", J::s(render_default(e).unwrap_or_default())),
                     ("mode", J::s(mode)),
